@@ -283,7 +283,8 @@ func c19Run(c c19Case, st *c19Stats) (violation string, harnessErr error) {
 	}
 	rootEsc := url.PathEscape(env.root)
 	anyDrop := false
-	tainted := false // state reads became unreliable (digest broke); stop asserting state equality
+	tainted := false  // state reads became unreliable (digest broke); stop asserting state equality
+	vocabStored := "" // a generic write route accepted (2xx) an edge / metadata object under a feature's own names
 
 	for i, r := range c.Reqs {
 		if r.Method == c19RestartStep { // pseudo-request: restart engine + server on the same data dir
@@ -406,6 +407,17 @@ func c19Run(c c19Case, st *c19Stats) (violation string, harnessErr error) {
 			}
 			if strings.HasPrefix(m, "followup:") || strings.HasPrefix(m, "store:") {
 				st.label("answer:" + m + ":" + strconv.Itoa(resp.status))
+			}
+			if strings.HasPrefix(m, "vocab-store:") {
+				st.label("answer:" + m + ":" + c19StatusClass(resp.status))
+				if resp.status >= 200 && resp.status < 300 && m != "vocab-store:natural" {
+					vocabStored = m
+				}
+			}
+			if m == "vocab-read" && vocabStored != "" && pat != "" {
+				// a feature route answered (properly, or this line is not reached) on a state that a generic route wrote under the feature's names
+				st.label("vocab-read-after-generic-store:" + r.Mut[0] + ":" + c19StatusClass(resp.status))
+				st.nontriv = true
 			}
 		}
 		if pat != "" && claim == "" {
@@ -624,7 +636,7 @@ func c19TraversalOnLifecycle(pat, target string, body []byte) bool {
 // test entry point
 // ---------------------------------------------------------------------------
 
-const c19Rule = "one case = 1-7 HTTP requests, optionally with a restart of engine and server in between (KV, vector, index, graph, system routes; valid bodies mutated by field deletion, type change, null, empty, extreme numbers, NaN-like tokens, deep nesting, unknown fields, wrong dimension, unknown ids, path-grammar names, non-JSON, published limits) served by a fresh real server through the full middleware chain. NON-TRIVIAL: at least one mutated body that the route's request type still decodes, or an over-limit request, or a name with '..' reaching an index create/add/drop route, or a follow-up metadata write (set-node-properties, reinforce, evolve, delete + re-add) on a node that already holds nested JSON metadata"
+const c19Rule = "one case = 1-12 HTTP requests, optionally with a restart of engine and server in between (KV, vector, index, graph, system routes; valid bodies mutated by field deletion, type change, null, empty, extreme numbers, NaN-like tokens, deep nesting, unknown fields, wrong dimension, unknown ids, path-grammar names, non-JSON, published limits) served by a fresh real server through the full middleware chain. NON-TRIVIAL: at least one mutated body that the route's request type still decodes, or an over-limit request, or a name with '..' reaching an index create/add/drop route, or a follow-up metadata write (set-node-properties, reinforce, evolve, delete + re-add) on a node that already holds nested JSON metadata, or a feature route (get-evolution, evolve, belief-assessment, invalidate, reflections, reinforce, search with hydration / memory decay, think, ...) served after a generic write route (graph link props, set-node-properties, add, add-batch, import, evolve new_metadata) stored an edge or metadata object under that feature's own relation / property / metadata names with values of arbitrary JSON type"
 
 func TestVerif_C19_http(t *testing.T) {
 	c19ProcessInit()
